@@ -151,6 +151,7 @@ struct StringRun {
         else if (o == "insert_it_range") { const U t = text(); TmpStr x(t, R.mm); post.insert(pos, t); R.call([&] { a->insert(a->begin() + pos, x.s.begin(), x.s.end()); }); after(three(pre, post)); }
         // ------------------------------------------------------------------ erase / size
         else if (o == "erase") { post.erase(pos, cnt); R.kind = cnt == 0 ? "erase-nothing" : (pos == 0 && cnt == n) ? "erase-everything" : pos + cnt == n ? "erase-tail" : "erase-mid"; R.call([&] { a->erase((sz)pos, (sz)cnt); }); after(two(pre, post)); }
+        else if (o == "erase_over") { const size_t over = cnt + 1 + R.uarg("n") % 7; post.erase(pos, over); R.call([&] { a->erase((sz)pos, (sz)over); }); after(two(pre, post)); }      // a count that reaches past the end is clamped, as in std::basic_string
         else if (o == "erase_npos") { post.erase(pos); R.call([&] { a->erase((sz)pos, S::npos); }); after(two(pre, post)); }
         else if (o == "erase_all") { post.clear(); R.call([&] { a->erase(); }); after(two(pre, post)); }
         else if (o == "erase_it") {
@@ -193,7 +194,7 @@ struct StringRun {
             }
             else if (o == "ctor_fill") { const size_t cc = R.uarg("n") % 10; want.assign(cc, ch()); R.call([&] { c = new S((sz)cc, ch(), R.mm); }); }
             else if (o == "ctor_ptr") { const U t = text(); want = t; R.call([&] { c = new S(t.c_str(), R.mm); }); }
-            else if (o == "ctor_ptr_n") { const U t = text(); if (t.empty()) return skip(); const size_t cc = 1 + R.uarg("n") % t.size(); want = t.substr(0, cc); R.call([&] { c = new S(t.c_str(), R.mm, (sz)cc); }); }
+            else if (o == "ctor_ptr_n") { U t = text(); if (R.uarg("n") % 5 == 0) t.insert(t.begin(), u'\0'); if (t.empty()) return skip(); const size_t cc = 1 + R.uarg("n") % t.size(); want = t.substr(0, cc); /* with an explicit count the data may begin with a null character */ R.call([&] { c = new S(t.c_str(), R.mm, (sz)cc); }); }
             else { const std::string t = narrow(); want = widen(t); R.call([&] { c = new S(t.c_str(), R.mm); }); }
             std::vector<U> okB = two(mb, mb);
             if (c) {
@@ -216,9 +217,10 @@ struct StringRun {
         }
         // ------------------------------------------------------------------ queries
         else if (o == "compare") {
-            if (nul) return skip(); const U t = text(); TmpStr x(t, R.mm); const int how = (int)(R.uarg("how") % 6);
+            const U t = text(); TmpStr x(t, R.mm); int how = (int)(R.uarg("how") % 8);
+            if (nul && how != 0 && how != 2 && how != 3 && how != 6 && how != 7) return skip();      // the pointer forms end at the first null character by definition
             const size_t p2 = R.uarg("j") % (t.size() + 1), c2 = std::min<size_t>(R.uarg("m") % 10, t.size() - p2);
-            int got = 0, want = 0; static const char* names[] = { "compare-string", "compare-pointer", "compare-sub-string", "compare-sub-sub", "compare-sub-pointer-default-count", "compare-sub-pointer-count" };
+            int got = 0, want = 0; static const char* names[] = { "compare-string", "compare-pointer", "compare-sub-string", "compare-sub-sub", "compare-sub-pointer-default-count", "compare-sub-pointer-count", "compare-sub-npos-string", "compare-sub-overlong-string" };
             R.kind = names[how];
             switch (how) {
             case 0: want = ma.compare(t); R.call([&] { got = a->compare(x.s); }); break;
@@ -226,6 +228,8 @@ struct StringRun {
             case 2: want = ma.compare(pos, cnt, t); R.call([&] { got = a->compare((sz)pos, (sz)cnt, x.s); }); break;
             case 3: want = ma.compare(pos, cnt, t, p2, c2); R.call([&] { got = a->compare((sz)pos, (sz)cnt, x.s, (sz)p2, (sz)c2); }); break;
             case 4: want = ma.compare(pos, cnt, t.c_str()); R.call([&] { got = a->compare((sz)pos, (sz)cnt, x.s.c_str()); }); break;
+            case 6: want = ma.compare(pos, U::npos, t); R.call([&] { got = a->compare((sz)pos, S::npos, x.s); }); break;
+            case 7: want = ma.compare(pos, cnt + 3, t); R.call([&] { got = a->compare((sz)pos, (sz)(cnt + 3), x.s); }); break;
             default: want = ma.compare(pos, cnt, t.c_str(), c2); R.call([&] { got = a->compare((sz)pos, (sz)cnt, x.s.c_str(), (sz)c2); }); break;
             }
             if (!R.threw && sgn(got) != sgn(want)) R.bad("compare-sign", std::string(names[how]) + " gives " + std::to_string(got) + ", std::u16string gives " + std::to_string(want) + " for " + show(ma) + " [" + std::to_string(pos) + "," + std::to_string(cnt) + "] vs " + show(t));
